@@ -53,6 +53,7 @@ Definition wire_eqb (a b : wire) : bool :=
   | WDoc x, WDoc y => doc_eqb x y
   | WText x, WText y => text_eqb x y
   | WReturn x, WReturn y => text_eqb x y
+  | WPartial x, WPartial y => text_eqb x y
   | _, _ => false
   end.
 
@@ -86,8 +87,8 @@ Definition ofobs_eqb (a b : option fobs) : bool :=
   match a, b with None, None => true | Some x, Some y => fobs_eqb x y | _, _ => false end.
 
 (** what the correspondence compares *)
-Definition wsgi_ok (c : prot * ucode * out (Z * wire)) : bool :=
-  let '(p, u, obs) := c in out_eqb resp_eqb (handle_rpc p u) obs.
+Definition wsgi_ok (c : prot * bool * ucode * out (Z * wire)) : bool :=
+  let '(p, ch, u, obs) := c in out_eqb resp_eqb (handle_rpc p ch u) obs.
 Definition server_ok (c : prot * ucode * out wire) : bool :=
   let '(p, u, obs) := c in out_eqb wire_eqb (server_out p u) obs.
 Definition dec_ok (c : prot * wire * option fobs) : bool :=
